@@ -168,6 +168,7 @@ type Interp struct {
 	pcFacts   map[*Term]bool
 	noMerge   bool
 	enum2     bool
+	enumWork  int64
 	canonMemo map[*Term]canonEnt
 	allowInit *ssa.Function
 	uniqueTab map[string]*value
